@@ -386,7 +386,7 @@ func formatPostingWithOpts(posting *ast.Posting, alignment AlignmentInfo, commod
 		writeAmountWithSign(&sb, &posting.BalanceAssertion.Amount, commodityFormats)
 	}
 
-	if posting.Comment != "" {
+	if strings.TrimSpace(posting.Comment) != "" {
 		// the comment text keeps its own leading blanks: adding one here would grow the
 		// comment by a blank with every formatting run
 		sb.WriteString("  ;")
